@@ -187,6 +187,69 @@ Fixpoint denote (script : list sev) (e : sexpr) (bs : list Z) (t0 : nat) (ts : o
       end
   end.
 
+(* ---- the user callables an operation invokes, with time stamps ------------------------------ *)
+
+(* sequential kinds: the successor's bound values and the parked result, if a's outcome starts it *)
+Definition seq_next (k : bkind) (bs : list Z) (oa : outcome) : option (list Z * option outcome) :=
+  match k, oa with
+  | BLetV, OVal v => Some (v :: bs, None)
+  | BLetE, OErr x => Some (x :: bs, None)
+  | BLetD, ODone => Some (bs, None)
+  | BSeq, OVal _ => Some (bs, None)
+  | BFinally, _ => Some (bs, Some oa)
+  | _, _ => None
+  end.
+
+(* the callable a unary adaptor applies when its child completes with o *)
+Definition un_call (k : ukind) (o : outcome) : list (fn * Z) :=
+  match k with
+  | UThen f => match o with OVal v => [(f, v)] | _ => [] end
+  | UUponErr f => match o with OErr e => [(f, e)] | _ => [] end
+  | UUponDone f => match o with ODone => [(f, 0%Z)] | _ => [] end
+  | _ => []
+  end.
+
+(* an operation that completed before time n makes no calls at time n *)
+Definition until (r : dres) (n : nat) (l : list (fn * Z)) : list (fn * Z) :=
+  match r with Some (_, t) => if t <? n then [] else l | None => l end.
+
+(* the applications (callable, argument) the operation e, started at t0, performs at time n, in order *)
+Fixpoint calls_at (script : list sev) (e : sexpr) (bs : list Z) (t0 : nat) (ts : option nat) (n : nat)
+         {struct e} : list (fn * Z) :=
+  match e with
+  | Un k s =>
+      calls_at script s bs t0 (un_ts k ts) n ++
+      match denote script s bs t0 (un_ts k ts) with
+      | Some (o, t) => if t =? n then un_call k o else []
+      | None => []
+      end
+  | Bin k a b =>
+      if is_seq k then
+        match denote script a bs t0 ts with
+        | Some (oa, t1) =>
+            (if t1 <? n then [] else calls_at script a bs t0 ts n) ++
+            match seq_next k bs oa with
+            | Some (bs', _) => if t1 <=? n then calls_at script b bs' t1 ts n else []
+            | None => []
+            end
+        | None => calls_at script a bs t0 ts n
+        end
+      else
+        let sg := conc_sigma k (denote script a bs t0) (denote script b bs t0) t0 ts in
+        let af := conc_afirst k (denote script a bs t0) (denote script b bs t0) t0 ts in
+        let pa := if af then ts else sg in
+        let pb := if af then sg else ts in
+        until (denote script a bs t0 pa) n (calls_at script a bs t0 pa n) ++
+        until (denote script b bs t0 pb) n (calls_at script b bs t0 pb n)
+  | _ => []
+  end.
+
+(* the applications recorded in a trace *)
+Definition tcalls (tr : list tev) : list (fn * Z) :=
+  flat_map (fun x => match x with TCall f v => [(f, v)] | _ => [] end) tr.
+Definition calls_of (tr : list xev) : list (fn * Z) :=
+  flat_map (fun x => match x with XT (TCall f v) => [(f, v)] | _ => [] end) tr.
+
 (* the instant at which stop is requested on the root receiver's token *)
 Fixpoint first_stop (l : list sev) (pos : nat) : option nat :=
   match l with
@@ -219,3 +282,45 @@ Fixpoint no_leafn (e : sexpr) : bool :=
 
 Definition stop_free (script : list sev) : bool :=
   forallb (fun ev => match ev with EvStop => false | _ => true end) script.
+
+(* ---- vocabulary of the correspondence theorems (Calc/DenoteProofs.v) -------------------------- *)
+
+(* has stop been requested (at instant [ts]) at instant [now]? *)
+Definition stopped_now (ts : option nat) (now : nat) : bool :=
+  match ts with Some c => c <=? now | None => false end.
+
+(* has the operation completed by time n? *)
+Definition done_by (r : dres) (n : nat) : bool :=
+  match r with Some (_, t) => t <=? n | None => false end.
+
+(* the part of a result that is known at time m *)
+Definition by_time (r : dres) (m : nat) : dres :=
+  match r with Some (o, t) => if t <=? m then r else None | None => None end.
+
+(* instant c is later than x *)
+Definition later (c : option nat) (x : nat) : Prop :=
+  match c with Some c => x < c | None => True end.
+
+(* the outcomes the root receiver was completed with in a run, in order *)
+Fixpoint xroots (tr : list xev) : list outcome :=
+  match tr with
+  | [] => []
+  | XRoot o _ :: tr' => o :: xroots tr'
+  | _ :: tr' => xroots tr'
+  end.
+
+(* ---- a worked example (Properties_C05_calc.v) ------------------------------------------------- *)
+(* finally (when_all (then l1 throw-if-5) (let_value l2 (then var0 (+10)))) l3 *)
+Definition c05_ex_e : sexpr :=
+  Bin BFinally
+      (Bin BWhenAll (Un (UThen (FThrowIf 5 77)) (Leaf 1))
+                    (Bin BLetV (Leaf 2) (Un (UThen (FAdd 10)) (Var 0))))
+      (Leaf 3).
+(* unknown leaf, a leaf that is not started yet, the SECOND leaf fails first, a duplicate, then the
+   first leaf produces 5 and its callable throws 77 (too late: not the first failure), cleanup *)
+Definition c05_ex_script1 : list sev :=
+  [EvLeaf 9 (OVal 0); EvLeaf 3 (OVal 0); EvLeaf 2 (OErr 4); EvLeaf 2 (OVal 1); EvLeaf 1 (OVal 5);
+   EvLeaf 3 (OVal 0)].
+(* the first leaf's callable throws first; the second leaf's value then flows through let_value *)
+Definition c05_ex_script2 : list sev :=
+  [EvLeaf 1 (OVal 5); EvLeaf 2 (OVal 1); EvLeaf 3 (OVal 0)].
